@@ -40,17 +40,29 @@ def _compose_a(comps, rng, n):
     norace = [r for r in races if r["n"] == 0][0]
     realraces = [r for r in races if r["n"] > 0]
     long_hist = {k: [h for h in v if len(h["chain"]) >= 4] for k, v in hist.items()}
+    # version populations whose LastModified is not monotone with succession (bumped / equal timestamps)
+    bumped = {}
+    for c in comps["bumped"]:
+        bumped.setdefault(c["n"], []).append(c["h"])
+    noncurrent_rules = [r for r in rules_on if r["nve"]["days"] > 0 or r["nvt"]]
     cases = []
     while len(cases) < n:
         ver = rng.choice(("Unversioned", "Enabled", "Enabled"))
         objs = []
+        has_bumped = False
         for k in (1, 2):
             pool = hist[(ver, k)]
-            if ver == "Enabled" and rng.random() < 0.3:
+            x = rng.random()
+            if ver == "Enabled" and x < 0.25:
                 pool = long_hist[(ver, k)]
+            elif ver == "Enabled" and x < 0.5:
+                pool = bumped[k]
+                has_bumped = True
             objs.append(rng.choice(pool))
         nr = 1 if rng.random() < 0.55 else 2
         rules = [rng.choice(rules_on if rng.random() < 0.85 else rules_off) for _ in range(nr)]
+        if has_bumped and rng.random() < 0.7:
+            rules[0] = rng.choice(noncurrent_rules)    # the actions for which the order of versions matters
         race = rng.choice(realraces) if rng.random() < 0.45 else norace
         if race["n"] > 0 and any(r["exp"]["kind"] == "date" for r in rules) and \
                 any(t["kind"] == "date" for r in rules for t in r["trans"]):
@@ -99,12 +111,13 @@ def run(ctx):
     dev = ctx.deviations("D-C25")
     # 1. design-level MC: the intended reconciler satisfies the three invariants against a replacing environment
     size = ctx.pick("small", "full")
-    ctx.mc("Lifecycle", "Lifecycle.MC.cfg", workers=ctx.pick(4, 8), timeout=1500, subst={"MCSize": '"%s"' % size})
+    import os
+    skip_mc = bool(os.environ.get("VERIF_SKIP_MC"))     # seed/mutation runs change the code, not the model
+    if not skip_mc:
+      ctx.mc("Lifecycle", "Lifecycle.MC.cfg", workers=ctx.pick(4, 8), timeout=1500, subst={"MCSize": '"%s"' % size})
     # ... and the invariants are not vacuous: each listed deviation must break them in the model
-    for tag, sz in (("D-C25-etag-guard", "small"), ("D-C25-newer-noncurrent-plus-one", "small"),
-                    ("D-C25-noncurrent-order", "full")):
-        if tag == "D-C25-noncurrent-order" and ctx.quick():
-            continue
+    for tag, sz in (() if skip_mc else (("D-C25-etag-guard", "small"), ("D-C25-newer-noncurrent-plus-one", "small"),
+                    ("D-C25-noncurrent-order", "small"))):
         r = ctx.tlc("Lifecycle", "Lifecycle.MC.cfg", workers=4, timeout=900,
                     subst={"MCSize": '"%s"' % sz, "Deviations": '{"%s"}' % tag})
         if r.outcome != "invariant":
@@ -118,7 +131,7 @@ def run(ctx):
     comps = {}
     for c in g.printed:
         comps.setdefault(c["kind"], []).append(c)
-    for k in ("hist", "rule", "clock", "ups", "race", "prog", "rrules", "probe"):
+    for k in ("hist", "bumped", "rule", "clock", "ups", "race", "prog", "rrules", "probe"):
         if not comps.get(k):
             raise vlib.Infra("no components of kind %s generated" % k)
         comps[k].sort(key=lambda c: json.dumps(c, sort_keys=True))
@@ -208,6 +221,12 @@ def run(ctx):
     ctx.extra["distinct_nontrivial"] = acted_cases
     ctx.extra["calls_by_kind"] = {"%s:%s" % k: v for k, v in sorted(kinds.items())}
     ctx.extra["replacements_between_list_and_call"] = races_fired
+    nm = [t for t in trace_a if any(v["mtime"] != v["created"] for o in t["events"][0]["objs"] for v in o["chain"])]
+    ctx.extra["cases_with_nonmonotone_lastmodified"] = len(nm)
+    ctx.extra["of_which_with_effective_noncurrent_call"] = sum(
+        1 for t in nm if any(e["e"] == "call" and e["res"] == "ok" and e["vid"] != 0 for e in t["events"]))
+    if ctx.extra["of_which_with_effective_noncurrent_call"] == 0:
+        raise vlib.Infra("no noncurrent action on a population with non-monotone LastModified was exercised")
     ctx.extra["real_store_latest_flag_mismatches"] = sum(t.get("latest_mismatch", 0) for t in trace_b)
     ctx.log("calls judged: %d, cases with at least one effective call: %d, by kind: %s, races fired: %d" %
             (calls, acted_cases, ctx.extra["calls_by_kind"], races_fired))
